@@ -12,6 +12,8 @@ import traceback
 from . import env
 
 NPROC = int(os.environ.get("VERIF_NPROC", "16"))
+# where evidence/ and replays/ are written; the detection audit redirects it to a scratch dir
+OUT = os.environ.get("VERIF_OUT", env.VERIF)
 MAX_VIOLATION_LINES = 12
 
 
@@ -114,7 +116,7 @@ def match_known(prop, sig, known):
 
 
 def write_replay(prop, v):
-    d = os.path.join(env.VERIF, "replays", prop)
+    d = os.path.join(OUT, "replays", prop)
     os.makedirs(d, exist_ok=True)
     digest = hashlib.sha1(v["sig"].encode()).hexdigest()[:12]
     path = os.path.join(d, digest + ".json")
@@ -165,7 +167,7 @@ def finish(prop, tier, seed, t0, acc, coverage, assumptions, module=None):
             shown += 1
     if len(new) > shown:
         print(f"  ... and {len(new) - shown} further distinct violation signature(s), "
-              f"replays written under {os.path.join(env.VERIF, 'replays', prop)}")
+              f"replays written under {os.path.join(OUT, 'replays', prop)}")
     for c in crashes[:3]:
         print(c)
     cov = dict(coverage)
@@ -181,8 +183,8 @@ def finish(prop, tier, seed, t0, acc, coverage, assumptions, module=None):
         "wall_s": round(time.time() - t0, 3), "violations": len(new),
         "repo": env.REPO,
     }
-    os.makedirs(os.path.join(env.VERIF, "evidence"), exist_ok=True)
-    with open(os.path.join(env.VERIF, "evidence", prop + ".json"), "w") as f:
+    os.makedirs(os.path.join(OUT, "evidence"), exist_ok=True)
+    with open(os.path.join(OUT, "evidence", prop + ".json"), "w") as f:
         json.dump(evidence, f, indent=1, sort_keys=True, default=str)
     print(f"{prop} tier={tier} seed={seed} states={cov.get('states')} "
           f"transitions={cov.get('transitions')} traces={cov.get('traces_validated_against_impl')} "
